@@ -211,8 +211,16 @@ def r02_2(ctx):
             if not ok:
                 ctx.ob("R02.2", "%s/%s" % (fname, k), False, "entry %r -> %r violates key == lower(value), key != value, injective" % (k, v), "html5ever tree_builder " + fname)
         ctx.ob("R02.2", fname + "/self-consistent", True, "%d entries: key == ASCII-lowercase(value), key != value, injective" % len(rows))
+        want = set(SPEC[{"adjust_svg_tag_name": "svg_element_name_adjustments", "adjust_svg_attributes": "svg_attribute_name_adjustments", "adjust_mathml_attributes": "mathml_attribute_name_adjustments"}[fname]])
+        ok = seen_v == want
+        ctx.ob("R02.2", fname + "/equals-standard" + ("" if ok else "/" + ",".join(sorted(seen_v ^ want))[:80]), ok,
+               "the adjusted names are exactly the standard's %d" % len(want) if ok else "missing from the code: %s; not in the standard: %s" % (sorted(want - seen_v), sorted(seen_v - want)), "html5ever tree_builder " + fname)
     rows = _adjust_table(ctx, "adjust_foreign_attributes")
     ctx.floor("R02.2", "adjust_foreign_attributes", len(rows), 11)
+    gotk = {k for k, _ in rows}
+    wantk = set(SPEC["foreign_attribute_adjustments"])
+    ctx.ob("R02.2", "adjust_foreign_attributes/equals-standard" + ("" if gotk == wantk else "/" + ",".join(sorted(gotk ^ wantk))[:80]), gotk == wantk,
+           "the adjusted attributes are exactly the standard's %d" % len(wantk) if gotk == wantk else "missing from the code: %s; not in the standard: %s" % (sorted(wantk - gotk), sorted(gotk - wantk)))
     NSURL = {"xlink": "http://www.w3.org/1999/xlink", "xml": "http://www.w3.org/XML/1998/namespace", "xmlns": "http://www.w3.org/2000/xmlns/"}
     for k, vals in rows:
         pre = [x[1] for x in vals if x[0] == "PREFIX"]
@@ -348,7 +356,92 @@ def r02_7(ctx):
     ctx.floor("R02.7", "scope-facts", n, 15)
 
 
+def r02_9(ctx):
+    """quirks-mode tables: contents equal the standard's lists (ASCII case-insensitively), each table read under the right comparison"""
+    want = {
+        "QUIRKY_PUBLIC_PREFIXES": "quirks_public_id_prefixes", "QUIRKY_PUBLIC_MATCHES": "quirks_public_id_exact", "QUIRKY_SYSTEM_MATCHES": "quirks_system_id_exact",
+        "LIMITED_QUIRKY_PUBLIC_PREFIXES": "limited_quirks_public_id_prefixes", "HTML4_PUBLIC_PREFIXES": "html401_public_id_prefixes_quirks_without_system_id_limited_with",
+    }
+    code = {}
+    for it in ctx.ast.crates["html5ever"]:
+        if it["k"] in ("Static", "Const") and it["mod"].endswith("tree_builder::data") and it["name"] in want:
+            arr = it["init"]
+            while arr.get("k") in ("Ref", "Paren", "Cast"):
+                arr = arr["e"]
+            if arr.get("k") != "Array" or not all(e.get("k") == "Lit" and e.get("t") == "str" for e in arr["elems"]):
+                raise AnchorMissing("%s is not an array of string literals" % it["name"])
+            code[it["name"]] = [e["v"] for e in arr["elems"]]
+    for name, key in sorted(want.items()):
+        if name not in code:
+            raise AnchorMissing("tree_builder::data::%s not found" % name)
+        got, exp = set(code[name]), {x.lower() for x in SPEC[key]}
+        ok = got == exp
+        detail = "%d entries equal the standard's list" % len(exp)
+        if not ok:
+            detail = "missing from the code: %s; not in the standard: %s" % (sorted(exp - got), sorted(got - exp))
+        ctx.ob("R02.9", "quirks-table/" + name + ("" if ok else "/" + ",".join(sorted(exp ^ got))[:80]), ok, detail, "html5ever/src/tree_builder/data.rs " + name)
+        lc = all(x == x.lower() for x in code[name])
+        ctx.ob("R02.9", "quirks-table-lowercase/" + name, lc, "entries are lower-case (the identifiers are lower-cased before the comparison)")
+    # how the tables are read
+    key, pcs = nfq.cells(ctx, TB, "data::doctype_error_and_quirks")
+    pcs = nfq.feasible(pcs)
+    lowered = "to_ascii_lowercase"
+    facts = 0
+    for pc in pcs:
+        ret = str(pc["ret"])
+        g = pc["guards"]
+        def has(sub, val):
+            return any(sub in k and v is val for k, v in g.items())
+        for k in g:
+            for t in want:
+                if t in k:
+                    facts += 1
+                    ok = lowered in k and (("starts_with" in k) == t.endswith("PREFIXES")) and (("public_id" in k) == ("PUBLIC" in t)) and (("system_id" in k) == ("SYSTEM" in t))
+                    ctx.ob("R02.9", "quirks-read/" + t, ok, "table compared with the lower-cased %s identifier by %s" % ("public" if "PUBLIC" in t else "system", "prefix" if t.endswith("PREFIXES") else "equality") if ok else "table %s is read as '%s'" % (t, k[:200]))
+        mode = ret.rstrip(")").split(",")[-1]
+        exp = None
+        if any(k == "p2" and v is True for k, v in g.items()):
+            exp = "NoQuirks"  # iframe srcdoc document: never quirks / limited quirks
+        elif has("p1.force_quirks", True) or has('p1.name != Some("html")', True):
+            exp = "Quirks"
+        elif has("QUIRKY_PUBLIC_MATCHES", True) or has("QUIRKY_SYSTEM_MATCHES", True) or (has("QUIRKY_PUBLIC_PREFIXES", True) and not has("LIMITED_QUIRKY_PUBLIC_PREFIXES", True)):
+            exp = "Quirks"
+        elif has("LIMITED_QUIRKY_PUBLIC_PREFIXES", True):
+            exp = "LimitedQuirks"
+        elif has("HTML4_PUBLIC_PREFIXES", True):
+            exp = "Quirks" if has("system_id.map(|..|{a1.to_ascii_lowercase()}) matches None", True) else "LimitedQuirks"
+        else:
+            exp = "NoQuirks"
+        facts += 1
+        ctx.ob("R02.9", "quirks-decision/" + ",".join("%s=%s" % (re.sub(r"[^A-Za-z0-9_.]+", "_", k)[:40], v) for k, v in sorted(g.items()) if "matches (Some" not in k)[:300], mode == exp,
+               "decides %s as the standard does" % exp if mode == exp else "decides %s where the standard says %s" % (mode, exp), "html5ever/src/tree_builder/data.rs doctype_error_and_quirks")
+    ctx.floor("R02.9", "quirks-facts", facts, 60)
+
+
+def r02_8(ctx):
+    from lib import dispatchcmp
+    cur = nf_common.area_current(ctx, TB)
+    ks = [k for k in cur if k.endswith("rules::TreeBuilder<Handle,Sink>::step")]
+    kf = [k for k in cur if k.endswith("rules::TreeBuilder<Handle,Sink>::step_foreign")]
+    if len(ks) != 1 or len(kf) != 1 or cur[ks[0]]["kind"] != "paths" or cur[kf[0]]["kind"] != "paths":
+        raise AnchorMissing("TreeBuilder::step / step_foreign have no path normal form")
+    cells, fcells = cur[ks[0]]["cells"], cur[kf[0]]["cells"]
+    modes = set()
+    for c in cells:
+        for g in c["guards"]:
+            if g.startswith("p1 matches "):
+                modes.update(a.strip() for a in g[len("p1 matches "):].split("|"))
+    n = dispatchcmp.compare(cells, modes, lambda k, d: ctx.ob("R02.8", k, True, d),
+                            lambda k, kind, d: ctx.ob("R02.8", k + "/" + kind, False, d, "html5ever tree_builder rules.rs step / step_foreign vs ref/whatwg_dispatch.py"), fcells)
+    ctx.floor("R02.8", "token-handlings-compared", n, 6000)
+    ctx.floor("R02.8", "insertion-modes", len(modes), 21)
+
+
 def run(ctx):
+    ctx.rule("R02.8", "tag dispatch of every insertion mode and of foreign content equals the independent transcription of the standard's rows: one handling per row, unlisted names handled like a fresh name, rows distinct except where the standard says 'act as anything else'")
+    ctx.guard("R02.8", "dispatch", lambda: r02_8(ctx))
+    ctx.rule("R02.9", "quirks-mode tables equal the standard's lists; each is read case-insensitively by prefix/equality on the right identifier; the decision order is the standard's")
+    ctx.guard("R02.9", "quirks", lambda: r02_9(ctx))
     ctx.rule("R02.7", "for selected InBody rules the 'has an element in X scope' test uses the scope the standard prescribes (list item / button / default)")
     ctx.guard("R02.7", "scopes", lambda: r02_7(ctx))
     ctx.rule("R02.1", "name sets and constants stated by the standard equal what the code uses (tag_sets.rs, dispatch-derived sets, 8/3/3)")
